@@ -40,6 +40,11 @@ StrictlyAscending(s) == \A i \in 1..(Len(s) - 1) : s[i] < s[i + 1]
 MsgByUid(msgs, u) == CHOOSE i \in DOMAIN msgs : msgs[i].uid = u
 Visible(fl) == fl \ {"Recent", "unseen"}       \* what a client may rely on
 Sel(seq, P(_)) == SelectSeq(seq, P)
+(* identity of a message as a client can know it; the MH key may change (pack) *)
+SameButFlags(x, y) == x.uid = y.uid /\ x.id = y.id
+SameMsgs(xs, ys) ==
+    Len(xs) = Len(ys) /\ \A i \in DOMAIN xs :
+        SameButFlags(xs[i], ys[i]) /\ Visible(xs[i].fl) = Visible(ys[i].fl)
 
 (* Sequence-set denotation (also the C15 reference).  An element is <<a,b>>, *)
 (* Star for "*".  Non-UID: numbers in 1..N; UID: uids that exist.            *)
@@ -185,6 +190,21 @@ C0203_Step(pre, ev, post) ==
                THEN {"C02.CopyUidHonest"} ELSE {}
           ELSE {})
 
+(* RENAME moves the whole subtree with every message, UID and flag intact and
+   leaves nothing under the old name *)
+C03_Rename(pre, ev, post) ==
+    IF ev.act = "Rename" /\ ev.status = "OK" /\ ev.src # "inbox" /\ ev.src # "INBOX" THEN
+        UNION {
+            LET o == ev.renames[i][1] n == ev.renames[i][2] IN
+            IF ~Live(pre, o) THEN {}
+            ELSE (IF Has(post, o) THEN {"C03.RenameLeftOldName"} ELSE {})
+                 \cup (IF ~Live(post, n) THEN {"C03.RenameLostMailbox"}
+                       ELSE IF post.mb[n].vv # pre.mb[o].vv \/ post.mb[n].next # pre.mb[o].next
+                               \/ ~SameMsgs(pre.mb[o].msgs, post.mb[n].msgs)
+                            THEN {"C03.RenameKeepsMessages"} ELSE {})
+            : i \in DOMAIN ev.renames}
+    ELSE {}
+
 (* UIDVALIDITY: vvh is the set of <<name, vv>> incarnations seen so far; an   *)
 (* incarnation continues when name and vv are unchanged, or it is the target  *)
 (* of the rename this event performed.                                        *)
@@ -218,7 +238,6 @@ SeenComplement(b) ==
     IF \E i \in DOMAIN b.msgs : ("Seen" \in b.msgs[i].fl) = ("unseen" \in b.msgs[i].fl)
     THEN {"C04.SeenUnseenComplement"} ELSE {}
 
-SameButFlags(x, y) == x.key = y.key /\ x.uid = y.uid /\ x.id = y.id
 
 (* flags (without Recent / unseen marker) of the messages both sides have *)
 FlagsKept(a, b, except) ==
@@ -319,9 +338,6 @@ C04_Step(pre, ev, post) ==
 (* C05 -- removal / addition                                                *)
 
 RemainIds(a, gone) == Sel(a.msgs, LAMBDA x : x.uid \notin gone)
-SameMsgs(xs, ys) ==
-    Len(xs) = Len(ys) /\ \A i \in DOMAIN xs :
-        SameButFlags(xs[i], ys[i]) /\ Visible(xs[i].fl) = Visible(ys[i].fl)
 (* messages present in the folder but not yet known to the server *)
 Unnoticed(a) == {f \in a.files : \A i \in DOMAIN a.msgs : a.msgs[i].key # f[1]}
 
@@ -460,6 +476,7 @@ C13_Step(pre, ev, post, agent) ==
 C13_Announced(pre, ev, post) ==
     IF ev.act \in {"Poll", "Noop", "Check"} /\ ev.status \in {"OK", "CONT"} THEN
        UNION {IF Live(post, x) /\ ev.dirty[x] /\ Unnoticed(post.mb[x]) # {}
+                 /\ (ev.mbox = "" \/ ev.mbox = x)
                  /\ (IF ev.act = "Poll"
                      THEN \E t \in DOMAIN pre.ss : pre.ss[t].open /\ pre.ss[t].sel = x
                                                     /\ post.ss[t].sel = x
